@@ -932,7 +932,7 @@ func TestVerifC09_CrashPoints(t *testing.T) {
 	}
 	work := vc09WorkDir()
 	defer os.RemoveAll(work)
-	maxPoints := vkit.Scale(160, 400)
+	maxPoints := vkit.Scale(90, 400)
 	rapid.Check(t, func(t *rapid.T) {
 		h := vc09GenHistory(t)
 		seed := rapid.Uint64().Draw(t, "sampleSeed")
@@ -951,4 +951,44 @@ func TestVerifC09_CrashPoints(t *testing.T) {
 			t.Fatalf("C09 violated [%s]: %s\n%s", v.Class, v.Msg, vc09Describe(run, k))
 		}
 	})
+}
+
+// TestVerifC09_Replay re-checks one saved history (VERIF_C09_HISTORY = path of a
+// JSON file {"schema":…, "writes":[…]}) at every crash point; VERIF_C09_DUMP=1
+// prints the operation list with the ACK positions.
+func TestVerifC09_Replay(t *testing.T) {
+	path := os.Getenv("VERIF_C09_HISTORY")
+	if path == "" {
+		t.Skip("VERIF_C09_HISTORY not set")
+	}
+	defer vkit.Flush()
+	buf, err := ioutil.ReadFile(path)
+	if err != nil {
+		t.Fatal(err)
+	}
+	var h vc09History
+	if err := json.Unmarshal(buf, &h); err != nil {
+		t.Fatal(err)
+	}
+	work := vc09WorkDir()
+	defer os.RemoveAll(work)
+	v, k, run, err := vc09CheckHistory(&h, work, 1<<30, func(n int) int { return 0 })
+	if run != nil && os.Getenv("VERIF_C09_DUMP") != "" {
+		a := 0
+		for i := range run.tr.Ops {
+			for a < len(run.tr.AckAfter) && run.tr.AckAfter[a] == i {
+				fmt.Printf("      ---- ACK %d %s\n", a, run.h.Writes[a].String())
+				a++
+			}
+			if kd := run.tr.Ops[i].Kind; kd != "bind" && kd != "unbind" {
+				fmt.Printf("%4d  %s\n", i+1, strings.Replace(run.tr.Ops[i].String(), work, "", -1))
+			}
+		}
+	}
+	if err != nil {
+		t.Fatalf("C09 replay: %v", err)
+	}
+	if v != nil {
+		t.Fatalf("C09 violated [%s]: %s\n%s", v.Class, v.Msg, vc09Describe(run, k))
+	}
 }
